@@ -1,20 +1,48 @@
 //! C04: untrusted bytes never crash the reader. Every case runs in a forked child with a panic hook,
-//! a counting allocator (flags any single request above 4 MiB + 16·len) and RLIMIT_AS, with a logger
-//! at Debug level installed (some code only runs when logging is enabled).
+//! a counting allocator and RLIMIT_AS, with a logger at Debug level installed (some code only runs when logging is enabled).
+//! The allocator MEASURES (largest single request, peak of the bytes alive together, cumulative bytes; per stage) and the
+//! observation ends with ` mem=<single>@<stage>,<peak>@<stage>,<total> pmem=<peak of the parse stages>,<kept by the Package>`;
+//! the driver judges the numbers (Spec/Alloc.lean: 64 KiB + 64·len single, 64 KiB + 128·len alive, 1 MiB + 1024·len in
+//! total) and compares them with the model's account of the same input. `alloc-excess:<stage>` (single request above
+//! 64 KiB + 64·len) is still prefixed here: it names the stage that went beyond the limit first.
 //! `hostile BYTES` → `parse=<c> meta=<c> acc=<c> fmt=<c> digests=<c> sig=<c> keyids=<c> files=<c>` (fmt = the `Display` /
 //! `Debug` impls of Header, IndexEntry, IndexData, Lead, PackageMetadata on the parsed values) with
-//! c ∈ ok | err | panic | skip; or `abort` (child died) / `alloc-excess`; plus `iter=<k>:<classes>:<fnv>|runaway|err|panic|skip`:
+//! c ∈ ok | err | panic | skip (`sigreal=` = `verify_signature` with a REAL `pgp::Verifier` — the Ed25519 test key, loaded
+//! before the fork — where `sig=` uses a verifier that rejects everything); or `abort` (child died) / `alloc-excess`; plus `iter=<k>:<classes>:<fnv>|runaway|err|panic|skip`:
 //! a consumer that keeps pulling items after an error (collect / filter_map) must see the iterator END (runaway = more
 //! than the header's file count + 16 items were produced); otherwise the number of items it saw, their Ok / Err classes
 //! run-length encoded and a hash of their paths and contents (`c07::drain_all`), which the model predicts
 //! (Model/FileIter.lean); `err` = `files()` itself failed.
+//! `hostsrc04 BYTES` → `parse=<c> cur=<c> open=<c> opens=<c> bufr=<c> mopen=<c>`: the same bytes, in the same kind of child,
+//! through every SOURCE kind / entry point: `Package::parse` on a slice, on an `io::Cursor`, `Package::open(&Path)` and
+//! `Package::open(&str)` on a file holding the bytes (std's default `BufReader<File>`), `Package::parse` over
+//! `BufReader::with_capacity(16, File)`, `PackageMetadata::open`. The file is written by the parent before the fork.
 use crate::common::*;
 use crate::pkggen::*;
 use std::io::Read;
-use std::sync::atomic::{AtomicBool, AtomicUsize, Ordering};
+use std::sync::atomic::{AtomicBool, AtomicIsize, AtomicUsize, Ordering};
 
 pub static ALLOC_LIMIT: AtomicUsize = AtomicUsize::new(usize::MAX);
 pub static ALLOC_EXCESS: AtomicBool = AtomicBool::new(false);
+/// the measuring half of the allocator (switched on only inside a C04 child): the largest single request, the bytes
+/// live at the same time (peak) and the bytes obtained in total (cumulative; a `realloc` counts by what it adds)
+pub static MEM_ON: AtomicBool = AtomicBool::new(false);
+pub static MEM_SINGLE: AtomicUsize = AtomicUsize::new(0);
+pub static MEM_LIVE: AtomicIsize = AtomicIsize::new(0);
+pub static MEM_PEAK: AtomicIsize = AtomicIsize::new(0);
+pub static MEM_TOTAL: AtomicUsize = AtomicUsize::new(0);
+
+#[inline]
+fn mem_note(request: usize, added: isize) {
+    if !MEM_ON.load(Ordering::Relaxed) { return; }
+    if request > MEM_SINGLE.load(Ordering::Relaxed) { MEM_SINGLE.store(request, Ordering::Relaxed); }
+    let live = MEM_LIVE.load(Ordering::Relaxed) + added;
+    MEM_LIVE.store(live, Ordering::Relaxed);
+    if added > 0 {
+        MEM_TOTAL.store(MEM_TOTAL.load(Ordering::Relaxed).saturating_add(added as usize), Ordering::Relaxed);
+        if live > MEM_PEAK.load(Ordering::Relaxed) { MEM_PEAK.store(live, Ordering::Relaxed); }
+    }
+}
 
 pub struct Counting;
 unsafe impl std::alloc::GlobalAlloc for Counting {
@@ -22,15 +50,18 @@ unsafe impl std::alloc::GlobalAlloc for Counting {
         if l.size() > ALLOC_LIMIT.load(Ordering::Relaxed) {
             ALLOC_EXCESS.store(true, Ordering::Relaxed);
         }
+        mem_note(l.size(), l.size() as isize);
         std::alloc::System.alloc(l)
     }
     unsafe fn dealloc(&self, p: *mut u8, l: std::alloc::Layout) {
+        mem_note(0, -(l.size() as isize));
         std::alloc::System.dealloc(p, l)
     }
     unsafe fn realloc(&self, p: *mut u8, l: std::alloc::Layout, n: usize) -> *mut u8 {
         if n > ALLOC_LIMIT.load(Ordering::Relaxed) {
             ALLOC_EXCESS.store(true, Ordering::Relaxed);
         }
+        mem_note(n, n as isize - l.size() as isize);
         std::alloc::System.realloc(p, l, n)
     }
 }
@@ -69,12 +100,46 @@ fn cls<T, E>(r: Result<Result<T, E>, String>) -> &'static str {
 
 /// which stage first tripped the allocation limit (set by `mark`)
 static EXCESS_AT: std::sync::Mutex<Option<&'static str>> = std::sync::Mutex::new(None);
+/// the counters as they stood at the end of every stage: (stage, largest single request, peak live, cumulative, live now)
+static STAGE_LOG: std::sync::Mutex<([(&'static str, usize, isize, usize, isize); 16], usize)> = std::sync::Mutex::new(([("", 0, 0, 0, 0); 16], 0));
 fn mark(stage: &'static str) {
     if ALLOC_EXCESS.load(Ordering::Relaxed) {
         let mut g = EXCESS_AT.lock().unwrap();
         if g.is_none() { *g = Some(stage); }
     }
+    if MEM_ON.load(Ordering::Relaxed) {
+        let mut g = STAGE_LOG.lock().unwrap();
+        let k = g.1;
+        if k < 16 {
+            g.0[k] = (stage, MEM_SINGLE.load(Ordering::Relaxed), MEM_PEAK.load(Ordering::Relaxed), MEM_TOTAL.load(Ordering::Relaxed), MEM_LIVE.load(Ordering::Relaxed));
+            g.1 = k + 1;
+        }
+    }
 }
+
+/// ` mem=<largest single request>@<stage>,<peak live bytes>@<stage>,<cumulative bytes> pmem=<peak live during the two parse
+/// stages>,<bytes the parsed Package keeps>`: measured, not judged here — the driver holds the limits (Spec: in proportion to
+/// the input length) and the model's own account of what `Header::parse` reserves and keeps (Model/Header.lean `parseAcct`)
+fn mem_report() -> String {
+    let g = STAGE_LOG.lock().unwrap();
+    let log = &g.0[..g.1];
+    let (mut s_at, mut p_at, mut s_prev, mut p_prev) = ("-", "-", 0usize, 0isize);
+    for (st, s, p, _, _) in log {
+        if *s > s_prev { s_prev = *s; s_at = st; }
+        if *p > p_prev { p_prev = *p; p_at = st; }
+    }
+    let total = log.last().map(|x| x.3).unwrap_or(0);
+    let parse = log.iter().find(|x| x.0 == "parse");
+    format!(" mem={}@{},{}@{},{} pmem={},{}", s_prev, s_at, p_prev.max(0), p_at, total,
+        parse.map(|x| x.2.max(0)).unwrap_or(0), parse.map(|x| x.4.max(0)).unwrap_or(0))
+}
+
+thread_local! {
+    /// the real verifier of the `sigreal` stage (public Ed25519 test key of /repo), loaded once, before any fork
+    static REAL_VERIFIER: Option<rpm::signature::pgp::Verifier> =
+        std::fs::read(format!("{}/public_ed25519.asc", KEYDIR)).ok().and_then(|k| rpm::signature::pgp::Verifier::load_from_asc_bytes(&k).ok());
+}
+const KEYDIR: &str = "/repo/tests/assets/signing_keys";
 
 fn stages(bytes: &[u8]) -> String {
     let meta = guarded(std::panic::AssertUnwindSafe(|| rpm::PackageMetadata::parse(&mut &bytes[..]).map(|_| ())));
@@ -107,6 +172,12 @@ fn stages(bytes: &[u8]) -> String {
             mark("digests");
             let sig = guarded(std::panic::AssertUnwindSafe(|| p.verify_signature(RejectAll)));
             mark("sig");
+            // the real OpenPGP verifier on the (attacker-controlled) signature blobs and header bytes
+            let sigreal = REAL_VERIFIER.with(|v| match v {
+                Some(v) => cls(guarded(std::panic::AssertUnwindSafe(|| p.verify_signature(v)))),
+                None => "nokey",
+            });
+            mark("sigreal");
             let key = guarded(std::panic::AssertUnwindSafe(|| p.signature_key_ids()));
             mark("keyids");
             let uncompressed = matches!(p.metadata.get_payload_compressor(), Ok(rpm::CompressionType::None));
@@ -126,15 +197,45 @@ fn stages(bytes: &[u8]) -> String {
                 }
             } else { "skip".to_string() };
             mark("iter");
-            out.push_str(&format!(" acc={} fmt={} digests={} sig={} keyids={} files={} iter={}", cls(acc), cls(fmt), cls(dig), cls(sig), cls(key), files, iter));
+            out.push_str(&format!(" acc={} fmt={} digests={} sig={} sigreal={} keyids={} files={} iter={}", cls(acc), cls(fmt), cls(dig), cls(sig), sigreal, cls(key), files, iter));
         }
-        _ => out.push_str(" acc=skip fmt=skip digests=skip sig=skip keyids=skip files=skip iter=skip"),
+        _ => out.push_str(" acc=skip fmt=skip digests=skip sig=skip sigreal=skip keyids=skip files=skip iter=skip"),
     }
     out
 }
 
+/// every source kind / entry point of the read side on the same bytes (`path` holds them, written by the parent)
+fn sources(bytes: &[u8], path: &std::path::Path) -> String {
+    use std::panic::AssertUnwindSafe as A;
+    let parse = guarded(A(|| rpm::Package::parse(&mut &bytes[..]).map(|_| ())));
+    mark("parse");
+    let cur = guarded(A(|| rpm::Package::parse(&mut std::io::Cursor::new(bytes)).map(|_| ())));
+    mark("cur");
+    let open = guarded(A(|| rpm::Package::open(path).map(|_| ())));
+    mark("open");
+    let opens = guarded(A(|| rpm::Package::open(path.to_str().unwrap_or("")).map(|_| ())));
+    mark("opens");
+    let bufr = guarded(A(|| -> Result<(), rpm::Error> {
+        let f = std::fs::File::open(path)?;
+        rpm::Package::parse(&mut std::io::BufReader::with_capacity(16, f)).map(|_| ())
+    }));
+    mark("bufr");
+    let mopen = guarded(A(|| rpm::PackageMetadata::open(path).map(|_| ())));
+    mark("mopen");
+    format!("parse={} cur={} open={} opens={} bufr={} mopen={}", cls(parse), cls(cur), cls(open), cls(opens), cls(bufr), cls(mopen))
+}
+
+/// the largest single request a case may make: 64 KiB + 64 bytes per input byte (a `Vec<String>` of one-byte strings costs
+/// 24 bytes per input byte, twice that while it grows; `Vec<IndexEntry>` 48 bytes per 16). The driver judges the measured
+/// numbers by the same formula (`Driver/C04.lean singleLimit`); this copy only names the STAGE that first went beyond it.
+pub fn single_limit(len: usize) -> usize { (64 << 10) + 64 * len }
+
 /// run in a forked child; the parent only learns a line of text or that the child died
 fn in_child(bytes: &[u8]) -> String {
+    in_child_with(bytes, &|b| stages(b))
+}
+
+fn in_child_with(bytes: &[u8], work: &dyn Fn(&[u8]) -> String) -> String {
     unsafe {
         let mut fds = [0i32; 2];
         if libc::pipe(fds.as_mut_ptr()) != 0 {
@@ -146,12 +247,17 @@ fn in_child(bytes: &[u8]) -> String {
             let lim = libc::rlimit { rlim_cur: 3 << 30, rlim_max: 3 << 30 };
             libc::setrlimit(libc::RLIMIT_AS, &lim);
             ALLOC_EXCESS.store(false, Ordering::Relaxed);
-            ALLOC_LIMIT.store((4 << 20) + 16 * bytes.len(), Ordering::Relaxed);
-            let mut s = stages(bytes);
+            ALLOC_LIMIT.store(single_limit(bytes.len()), Ordering::Relaxed);
+            MEM_SINGLE.store(0, Ordering::Relaxed); MEM_LIVE.store(0, Ordering::Relaxed);
+            MEM_PEAK.store(0, Ordering::Relaxed); MEM_TOTAL.store(0, Ordering::Relaxed);
+            MEM_ON.store(true, Ordering::Relaxed);
+            let mut s = work(bytes);
+            MEM_ON.store(false, Ordering::Relaxed);
             ALLOC_LIMIT.store(usize::MAX, Ordering::Relaxed);
             if ALLOC_EXCESS.load(Ordering::Relaxed) {
                 s = format!("alloc-excess:{} {}", EXCESS_AT.lock().unwrap().unwrap_or("?"), s);
             }
+            s.push_str(&mem_report());
             libc::write(fds[1], s.as_ptr() as *const libc::c_void, s.len());
             libc::_exit(0);
         }
@@ -186,10 +292,51 @@ pub fn eval(op: &str, a: &[&str]) -> Option<String> {
         "hostile" => {
             let _ = log::set_logger(&LOGGER);
             log::set_max_level(log::LevelFilter::Debug);
+            REAL_VERIFIER.with(|_| ()); // loaded in the parent
             Some(in_child(&arg_bytes(a[0])))
+        }
+        "hostsrc04" => {
+            let _ = log::set_logger(&LOGGER);
+            log::set_max_level(log::LevelFilter::Debug);
+            let bytes = arg_bytes(a[0]);
+            static N: AtomicUsize = AtomicUsize::new(0);
+            let path = std::env::temp_dir().join(format!("rpmverif-c04s-{}-{}.rpm", std::process::id(), N.fetch_add(1, Ordering::Relaxed)));
+            if std::fs::write(&path, &bytes).is_err() {
+                return Some("io-setup".into());
+            }
+            let r = in_child_with(&bytes, &|b| sources(b, &path));
+            let _ = std::fs::remove_file(&path);
+            Some(r)
+        }
+        // `alloc04 WHICH N S TY OFF CNT FILL`: the same read side on a package built from the parameters (the driver builds
+        // the same bytes: inputs of 10^4..10^6 bytes travel as seven numbers); ` len= fnv=` identify the bytes used here
+        "alloc04" => {
+            if a.len() != 7 { return None; }
+            let num = |i: usize| a[i].parse::<u64>().ok();
+            let bytes = alloc_package(a[0], num(1)? as usize, num(2)? as usize, num(3)? as u32, num(4)? as u32, num(5)? as u32, num(6)?);
+            let _ = log::set_logger(&LOGGER);
+            log::set_max_level(log::LevelFilter::Debug);
+            let r = in_child(&bytes);
+            Some(format!("{} len={} fnv={:016x}", r, bytes.len(), fnv(&bytes)))
         }
         _ => None,
     }
+}
+
+/// the package of `alloc04`: lead, then the signature (`s`) or main (`h`) header with `n` identical index entries (tag 1000,
+/// type `ty`, offset `off` as a bit pattern, count `cnt`) over an `s`-byte store (`fill` 0 = zeros, 1 = 'a's and a final
+/// NUL, 2 = 'a',NUL pairs); the other header is empty, there is no payload
+pub fn alloc_package(which: &str, n: usize, s: usize, ty: u32, off: u32, cnt: u32, fill: u64) -> Vec<u8> {
+    let lead = gen_lead(&mut Rng::new(7), false);
+    let mut h = GHeader::new();
+    h.store = match fill {
+        1 => { let mut v = vec![b'a'; s]; if let Some(l) = v.last_mut() { *l = 0; } v }
+        2 => (0..s).map(|i| if i % 2 == 0 { b'a' } else { 0 }).collect(),
+        _ => vec![0u8; s],
+    };
+    h.entries = vec![GEntry { tag: 1000, ty, off: off as i32, cnt }; n];
+    let empty = GHeader::new();
+    if which == "s" { assemble(&lead, &h, 0, &empty, &[]) } else { assemble(&lead, &empty, 0, &h, &[]) }
 }
 
 /// a small valid package with an uncompressed payload and files, built by the real builder
@@ -209,6 +356,27 @@ pub fn small_built(seed: u64, with_files: bool) -> Vec<u8> {
     pkg.write(&mut v).unwrap();
     let _ = std::fs::remove_dir_all(&dir);
     v
+}
+
+/// the same kind of package (two files, uncompressed payload) built AND SIGNED by the library (`build_and_sign`, Ed25519
+/// test key, signature time clamped to the source date: deterministic): digests, OPENPGP and the legacy signature tag in
+/// the signature header
+pub fn small_signed(seed: u64) -> Option<Vec<u8>> {
+    let sec = std::fs::read(format!("{}/secret_ed25519.asc", KEYDIR)).ok()?;
+    let signer = rpm::signature::pgp::Signer::load_from_asc_bytes(&sec).ok()?;
+    let dir = std::path::PathBuf::from(format!("work/c04src-s{}", std::process::id()));
+    let _ = std::fs::create_dir_all(&dir);
+    let mut b = rpm::PackageBuilder::new("hostile", "1.0", "MIT", "noarch", "s").compression(rpm::CompressionType::None).source_date(1_600_000_000u32);
+    for i in 0..2 {
+        let p = dir.join(format!("f{}", i));
+        std::fs::write(&p, vec![b'a' + i as u8; 5 + (seed as usize + i) % 7]).ok()?;
+        b = b.with_file(&p, rpm::FileOptions::new(format!("/opt/h/f{}", i)).mode(rpm::FileMode::regular(0o644))).ok()?;
+    }
+    let pkg = b.build_and_sign(signer).ok()?;
+    let mut v = Vec::new();
+    pkg.write(&mut v).ok()?;
+    let _ = std::fs::remove_dir_all(&dir);
+    Some(v)
 }
 
 /// a hand-encoded package in the large-file layout: sizes in RPMTAG_LONGFILESIZES (64 bit, unchecked), an
@@ -316,6 +484,24 @@ pub fn gen(ctx: &mut Ctx) {
             }
         }
     }
+    if si == 0 {
+        // well-formed v4 signature packets WITHOUT any sub-packet (no Issuer, no creation time) of every algorithm family, under
+        // every signature tag, alone (no digests recorded: the verifiers are reached) — the `key_ids.is_empty()` arm of the real
+        // `pgp::Verifier::verify` and the no-issuer arm of `signature_key_ids`
+        let lead = gen_lead(&mut Rng::new(13), false);
+        for alg in [1u8, 3, 17, 19, 22, 27, 0, 200] {
+            let pkt = crate::c10::crafted_sig_packet(alg);
+            for tag in [268u32, 267, 1002, 278] {
+                let mut s = GHeader::new();
+                if tag == 278 {
+                    s.push(tag, 8, &TData::Strs(vec![crate::c02::b64_text(&pkt)]));
+                } else {
+                    s.push(tag, 7, &TData::Bytes(pkt.clone()));
+                }
+                ctx.req(&format!("hostile {}", hx(&assemble(&lead, &s, 0, &GHeader::new(), &[]))));
+            }
+        }
+    }
     if si == 1 % sn {
         // gap G3: blobs that are a SEQUENCE of packets around real signatures (junk / garbage-in-a-frame / second signature /
         // trailing packets or unframed bytes / re-framed with every length format): the framing itself, and the whole read
@@ -335,8 +521,59 @@ pub fn gen(ctx: &mut Ctx) {
             ctx.req(&format!("hostile {}", hx(&assemble(&lead, &s, 0, &GHeader::new(), &[]))));
         }
     }
+    if si == 2 % sn {
+        // memory in proportion to the input (audit a14 / c10): counts in the MIDDLE of the range (2^12, 2^16, 2^20: far above
+        // what a short store can hold, far below the 2^31 / 2^32 - 1 of the boundary products) on every kind of entry, over
+        // stores that are empty / short / one element short / exactly long enough; inputs of 10^3..10^6 bytes, so that the
+        // per-byte part of the limits is what judges them, not the floor
+        let big: &[u32] = if ctx.thorough { &[1 << 12, 1 << 16, 1 << 20] } else { &[1 << 12, 1 << 16] };
+        for which in ["h", "s"] {
+            for &cnt in big {
+                for ty in [3u32, 4, 5] {
+                    let w: u64 = match ty { 3 => 2, 4 => 4, _ => 8 };
+                    for s in [0u64, 8, 4096, cnt as u64, cnt as u64 * w - w, cnt as u64 * w] {
+                        if s > (1 << 20) { continue; }
+                        ctx.req(&format!("alloc04 {} 1 {} {} 0 {} 0", which, s, ty, cnt));
+                    }
+                }
+                for ty in [1u32, 2, 7] {
+                    for s in [0u64, cnt as u64 - 1, cnt as u64] {
+                        ctx.req(&format!("alloc04 {} 1 {} {} 0 {} 0", which, s, ty, cnt));
+                    }
+                }
+                // strings: `cnt` empty strings (a 24-byte `String` per input byte), 'a',NUL pairs, one long string
+                for ty in [8u32, 9] {
+                    if cnt > (1 << 16) && !ctx.thorough { continue; }
+                    ctx.req(&format!("alloc04 {} 1 {} {} 0 {} 0", which, cnt, ty, cnt));
+                    ctx.req(&format!("alloc04 {} 1 {} {} 0 {} 0", which, cnt - 1, ty, cnt));
+                    ctx.req(&format!("alloc04 {} 1 {} {} 0 {} 2", which, 2 * cnt as u64, ty, cnt));
+                    ctx.req(&format!("alloc04 {} 1 {} {} 0 2 1", which, cnt, ty));
+                }
+                ctx.req(&format!("alloc04 {} 1 {} 6 0 1 1", which, cnt));
+                // the count 2^20 against a store the reservation is capped by
+                ctx.req(&format!("alloc04 {} 1 {} 5 0 1048576 0", which, cnt));
+            }
+            // many entries, disjoint in effect (count 0 / NULL) and the intro fields at 2^12 / 2^16 with nothing behind them
+            ctx.req(&format!("alloc04 {} 4096 0 0 0 0 0", which));
+            ctx.req(&format!("alloc04 {} 4096 16 7 0 16 0", which));
+            // DEFECT-T11 (overlapping entries): index entries may point at the SAME store bytes and each gets its own decoded
+            // copy, so the parsed header keeps entries x store bytes (C04.overlap_accepted; rpm rejects such headers). The small
+            // members of the family stay under the limits; the last two of each kind are beyond them on the current code
+            // (verdict `fails:alloc-kept-quadratic`; theorem C04.harness_limit_refuted is the (512, 8192) BIN case).
+            for (n, s) in [(16u64, 256u64), (64, 1024), (256, 4096), (512, 8192)] {
+                ctx.req(&format!("alloc04 {} {} {} 7 0 {} 0", which, n, s, s));
+                ctx.req(&format!("alloc04 {} {} {} 4 0 {} 0", which, n, s, s / 4));
+            }
+            for (n, s) in [(8u64, 128u64), (64, 1024), (128, 2048)] {
+                ctx.req(&format!("alloc04 {} {} {} 8 0 {} 2", which, n, s, s / 2));
+            }
+        }
+    }
     let base_a = small_built(1, true);
     let base_b = small_built(2, false);
+    // a package built and signed by the library: base of truncations / mutations as well (its signature header carries
+    // real OpenPGP material, which the `sigreal` stage hands to the real verifier)
+    let base_s = small_signed(3).unwrap_or_else(|| base_a.clone());
     if si == 0 {
         // boundary-value products of intro fields and one index entry, in either header
         let lead = gen_lead(&mut Rng::new(7), false);
@@ -355,7 +592,7 @@ pub fn gen(ctx: &mut Ctx) {
             let len = store.len() as i64;
             for ty in 0u32..=10 {
                 for off in [-1i64, 0, len - 1, len, len + 1, i32::MIN as i64, i32::MAX as i64] {
-                    for cnt in [0u32, 1, len as u32, len as u32 + 1, 0x8000_0000, u32::MAX] {
+                    for cnt in [0u32, 1, len as u32, len as u32 + 1, 1 << 12, 1 << 16, 1 << 20, 0x8000_0000, u32::MAX] {
                         for (tag, unterminated) in [(1000u32, false), (1004, false), (1000, true)] {
                             let mut h = GHeader::new();
                             h.store = if unterminated { b"abcdefgh".to_vec() } else { store.clone() };
@@ -393,6 +630,19 @@ pub fn gen(ctx: &mut Ctx) {
                 ctx.req(&format!("hostile {}", hx(&base[..k])));
             }
         }
+    }
+    // every truncation of the signed package (whole read side), and every truncation of all three once more through the
+    // other source kinds (Cursor, File + default BufReader, File + 16-byte BufReader, metadata-only open)
+    for (bi, base) in [&base_s, &base_a, &base_b].iter().enumerate() {
+        for k in 0..=base.len() {
+            if (k as u64 + bi as u64) % sn != si { continue; }
+            if bi == 0 {
+                ctx.req(&format!("hostile {}", hx(&base[..k])));
+            }
+            ctx.req(&format!("hostsrc04 {}", hx(&base[..k])));
+        }
+    }
+    if si == 0 {
         // hostile cpio headers: rewrite fields of the first archive entry of the built package
         if let Ok(p) = rpm::Package::parse(&mut &base_a[..]) {
             let off = p.metadata.get_package_segment_offsets().payload as usize;
@@ -422,7 +672,7 @@ pub fn gen(ctx: &mut Ctx) {
         }
     }
     // single-byte mutations (3 values per position) of the two small packages
-    for (bi, base) in [&base_a, &base_b].iter().enumerate() {
+    for (bi, base) in [&base_a, &base_b, &base_s].iter().enumerate() {
         for pos in 0..base.len() {
             if (pos as u64 + bi as u64) % sn != si { continue; }
             if !ctx.thorough && pos % 3 != 0 { continue; }
@@ -431,6 +681,10 @@ pub fn gen(ctx: &mut Ctx) {
                 let mut b = (*base).clone();
                 b[pos] = v;
                 ctx.req(&format!("hostile {}", hx(&b)));
+                // mutated (complete) inputs through the other source kinds: every 4th position of the signed package
+                if bi == 2 && pos % 4 == 0 && v == base[pos] ^ 0x80 {
+                    ctx.req(&format!("hostsrc04 {}", hx(&b)));
+                }
             }
         }
     }
